@@ -4,7 +4,7 @@ mod verif_kani {
     use super::*;
 
     /// K-mrs (bounded stand-in for the assumed contract O-mrs-layout of MultiRecord::serialize):
-    /// <= 2 payloads of <= 2 bytes, symbolic first position: output == (pos+i (le64) | len (le32) | bytes)*
+    /// <= 2 payloads of <= 1 byte, symbolic first position: output == (pos+i (le64) | len (le32) | bytes)*
     #[kani::proof]
     #[kani::unwind(5)]
     fn k_mrs() {
@@ -12,11 +12,11 @@ mod verif_kani {
         kani::assume(n <= 2);
         let data: [[u8; 2]; 3] = kani::any();
         let lens: [usize; 3] = kani::any();
-        kani::assume(lens[0] <= 2 && lens[1] <= 2 && lens[2] <= 2);
+        kani::assume(lens[0] <= 1 && lens[1] <= 1 && lens[2] <= 1);
         let pos: u64 = kani::any();
         kani::assume(pos < u64::MAX - 3);
         let payloads: [&[u8]; 3] = [&data[0][..lens[0]], &data[1][..lens[1]], &data[2][..lens[2]]];
-        let mut out = Vec::new();
+        let mut out = Vec::with_capacity(64);
         MultiRecord::serialize(payloads[..n].iter().copied(), pos, &mut out);
         let mut off = 0usize;
         let mut i = 0;
